@@ -18,6 +18,7 @@ RULE = (
     "(c) mutated neighbours of (a): truncation at every offset, extension by 1..8 bytes, single bit flips, duplicated record groups, "
     "disagreeing length-format nibbles; (d) thorough: coverage-guided atheris campaign on parse_dynamic with the same oracle. "
     "Oracle: if UDSResponse.parse_dynamic returns r then r.pdu == input; if r is typed, its public attributes equal the values the "
+    "Also: a second decoding of the same bytes after the first result was modified by its holder, and the decoded class used directly (from_pdu) on the same bytes under a foreign first byte (rejected or at least not rewritten). "
     "reference decoder reads at the ISO byte positions. Raising is a clean rejection. Non-trivial: accepted as a typed (non-raw) "
     "response. Distinct by bytes."
 )
